@@ -386,6 +386,26 @@ def run(index, rep, tier):
                       "TreeArray(%s=...) : master gets `%s`, workers get `%s`" % (k, norm(mv) if mv is not None else None, chain),
                       "master and worker TreeArrays are constructed with different sources for `%s` (master `%s`, worker `%s`): update() compares this setting and the merge is rejected or silently inconsistent"
                       % (k, norm(mv) if mv is not None else None, chain))
+        # the worker's counting array and the serial route's counting array are built with the same options
+        ser = index.function(ST + ".TreeProcessor.serial_analyze_trees")
+        scall = [c for c in calls_in(ser.node) if call_name(c) == "TreeArray"]
+        if not scall:
+            raise AnalysisError("R06.5: TreeArray construction in serial_analyze_trees not found")
+        skw = {k.arg: norm(k.value) for k in scall[0].keywords if k.arg and k.arg != "taxon_namespace"}
+        wkw = {}
+        for k in wcall.keywords:
+            if not k.arg or k.arg == "taxon_namespace":
+                continue
+            v = k.value
+            src = None
+            if is_self_attr(v) and v.attr in field_src:
+                lv = get_kwarg(launch_call, field_src[v.attr])
+                src = norm(lv) if lv is not None else None
+            wkw[k.arg] = src if src is not None else norm(v)
+        for k in sorted(set(skw) | set(wkw)):
+            rep.check(skw.get(k) == wkw.get(k), "R06.5", winit.qualname, "option %s: serial `%s` / worker `%s`" % (k, skw.get(k), wkw.get(k)), fn_where(winit, wcall),
+                      "TreeArray(%s=%s) on the serial route and in the workers" % (k, skw.get(k)),
+                      "the serial route builds its TreeArray with %s=%s, the workers with %s: trees are then counted under different settings depending on the number of processes (e.g. tip ages ignored in the workers only, so node ages and the ultrametricity check differ between a serial and a parallel run)" % (k, skw.get(k), wkw.get(k)))
         # labels handed to workers preserve namespace order
         tlv = get_kwarg(launch_call, "taxon_labels")
         tl = [n for n in walk_no_nested(par.node) if isinstance(n, ast.Assign) and tlv is not None and norm(n.targets[0]) == norm(tlv)]
